@@ -2,6 +2,7 @@
 import Prs.Driver.Json
 import Prs.Spec.Neighbours
 import Prs.Model.Neighbors
+import Prs.Model.Output
 import Std.Data.HashMap
 open Lean
 namespace Prs.Drv
@@ -178,6 +179,39 @@ def opSearch (op : String) (j : Json) : Option (R Json) :=
       pure (Json.bool (isdistHam (← alphabetOf j) (← nat j "n") (← chars j "x") (← strList j "ref")))
   | "nndist_hamming" => some do
       pure (jOpt jNat (nndistHamming (← alphabetOf j) (← chars j "x") (← strList j "ref") (← nat j "maxdist")))
+  | "check_common_input" => some do
+      let a : ArgDesc := {
+        nSeqs := ← nat j "nSeqs", allStr := ← bool j "allStr",
+        maxEditsIsInt := ← bool j "maxEditsIsInt", maxEdits := ← int j "maxEdits",
+        maxReturnsIsNone := ← bool j "maxReturnsIsNone", maxReturnsIsInt := ← bool j "maxReturnsIsInt",
+        maxReturns := ← int j "maxReturns", nCpuIsInt := ← bool j "nCpuIsInt", nCpu := ← int j "nCpu",
+        customOk := ← bool j "customOk", mcdIsNumber := ← bool j "mcdIsNumber", mcdNonneg := ← bool j "mcdNonneg",
+        outputKnown := ← bool j "outputKnown", seqs2IsNone := ← bool j "seqs2IsNone", seqs2AllStr := ← bool j "seqs2AllStr" }
+      pure (Json.bool (checkCommonInput a))
+  | "decode_dense" => some do
+      let m ← (← arr j "m").toList.mapM fun r => match r with
+        | .arr a => a.toList.mapM fun x => x.getInt?
+        | _ => throw "m: matrix expected"
+      pure (jList (fun t => Json.arr #[jNat t.1, jNat t.2.1, jInt t.2.2]) (decodeDense m))
+  | "take_best" => some do
+      let ts ← (← arr j "trip").toList.mapM fun t => match t with
+        | .arr #[a, b, c] => do pure ((← a.getNat?), (← b.getNat?), (← ratOfJson c))
+        | _ => throw "trip: [q, r, d] expected"
+      let m ← match optField j "m" with
+        | none => pure none
+        | some v => do pure (some (← v.getNat?))
+      pure (jTrips (takeBest (fun a b => decide (a ≤ b)) m ts))
+  | "nn_tcrdist" => some do
+      let k ← nat j "k"
+      let seqs ← strList j "edit_seqs"
+      let mat (key : String) : R (Nat → Nat → Rat) := do
+        let rows ← (← arr j key).mapM fun r => match r with
+          | .arr a => a.mapM ratOfJson
+          | _ => throw s!"{key}: matrix expected"
+        pure fun i k => ((rows[i]?.bind (·[k]?)).getD 0)
+      pure (jTrips (nnTcrdist k seqs (← mat "vd") (← mat "cd") (← rat j "max_tcrdist")))
+  | "trim_slice" => some do
+      pure (jStr (trimSlice (← nat j "ntrim") (← nat j "ctrim") (← chars j "s")))
   | _ => none
 
 end Prs.Drv
